@@ -411,3 +411,53 @@ Proof.
   split; [vm_compute; reflexivity|]. split; [vm_compute; reflexivity|].
   split; [vm_compute; reflexivity|]. vm_compute. repeat split.
 Qed.
+
+(* ================================================================== the guards are met by reachable steps *)
+(* the window clause: the first poll after a write sends two segments under the guard *)
+Lemma win_guard_nonvacuous :
+  exists w cfg ops,
+    vconfig_ok cfg = true /\ Forall op_msg_ok ops /\
+    existsb (fun st => c05_win_guard cfg st &&
+                       match fs_result st with
+                       | FrPoll PollPending pkts _ _ => (2 <=? Z.of_nat (length (filter fq_is_data pkts)))
+                       | _ => false
+                       end) (wtrace w cfg ops) = true /\
+    forallb (c05_window_ok2 cfg) (wtrace w cfg ops) = true /\
+    forallb (c05_window_ok_g cfg) (wtrace w cfg ops) = true.
+Proof.
+  exists 100000, d16_cfg, [VoWrite (repeat 0 (Z.to_nat 3000)); VoPoll []].
+  split; [vm_compute; reflexivity|]. split; [repeat constructor|].
+  split; [vm_compute; reflexivity|]. split; vm_compute; reflexivity.
+Qed.
+
+(* the zero-window clauses: the D16 scenario has polls with a zero window that end open; the RTO poll
+   is in the class D16 (c05_d16_class2), the others send nothing *)
+Lemma zero_window_open_nonvacuous :
+  exists w cfg ops,
+    vconfig_ok cfg = true /\ Forall op_msg_ok ops /\
+    existsb (fun st => post_open cfg st && (f_last_remote_window (fs_post st) =? 0) &&
+                       match fs_result st with FrPoll PollPending _ _ _ => true | _ => false end)
+            (wtrace w cfg ops) = true /\
+    existsb (c05_d16_class2 cfg) (wtrace w cfg ops) = true /\
+    forallb (c05_zero_window_ok_open cfg) (wtrace w cfg ops) = true /\
+    forallb (c05_zero_window_strict_or_d16_open cfg) (wtrace w cfg ops) = true.
+Proof.
+  exists 1056, d16_cfg, d16_ops.
+  split; [vm_compute; reflexivity|]. split; [repeat constructor|].
+  split; [vm_compute; reflexivity|]. split; [vm_compute; reflexivity|]. split; vm_compute; reflexivity.
+Qed.
+
+(* single-segment mode: the poll in which the timer fires emits exactly one ST_DATA and the counter grows *)
+Lemma rto_single_nonvacuous :
+  exists w cfg ops,
+    vconfig_ok cfg = true /\ Forall op_msg_ok ops /\
+    existsb (fun st => (0 <? f_rto_retx (fs_post st)) &&
+                       match fs_result st with
+                       | FrPoll PollPending pkts _ _ => Z.of_nat (length (filter fq_is_data pkts)) =? 1
+                       | _ => false
+                       end) (wtrace w cfg ops) = true /\
+    forallb (c05_rto_single_ok cfg) (wtrace w cfg ops) = true.
+Proof.
+  exists 1056, d16_cfg, d16_ops.
+  split; [vm_compute; reflexivity|]. split; [repeat constructor|]. split; vm_compute; reflexivity.
+Qed.
